@@ -32,7 +32,7 @@ def bounds(tier, seed):
 
 
 def space(tier, seed):
-    return list(A.scenarios(tier, ["N2", "N5", "N7"])) + list(A.extra_scenarios(tier)) + list(A.inc_scenarios(tier)) + list(A.period_scenarios(tier))
+    return list(A.scenarios(tier, ["N2", "N5", "N7"])) + list(A.extra_scenarios(tier)) + list(A.inc_scenarios(tier)) + list(A.period_scenarios(tier)) + list(A.three_scenarios(tier))
 
 
 def check(scn, tr, out):
